@@ -5,7 +5,11 @@
  * Oracle: replay of the returned placement + an independent Sankoff cost table. */
 #include "treegen.h"
 
+#ifdef HIGH_ALLELE
+#define NA (HIGH_ALLELE + 1)
+#else
 #define NA 3   /* alphabet {0,1,2} */
+#endif
 #define INF 1000
 
 static h_tables_t T;
@@ -68,12 +72,18 @@ main_c20(void)
     for (u = 0; u < NN; u++) {
         geno[u] = -2;
         if (T.flags[u] & TSK_NODE_IS_SAMPLE) {
-            geno[u] = sym_choice(sym_nm(nm, "g", ns), -1, NA - 1);
+            geno[u] = sym_choice(sym_nm(nm, "g", ns), -1, 2);
+#ifdef HIGH_ALLELE
+            /* relabel allele 2 as allele HIGH_ALLELE (e.g. 40, 63): the 64-bit set arithmetic beyond bit 31 */
+            if (geno[u] == 2) {
+                geno[u] = HIGH_ALLELE;
+            }
+#endif
             genotypes[ns++] = geno[u];
             nonmissing += geno[u] >= 0;
         }
     }
-    fixed = sym_choice("fixed", 0, NA); /* 0: free ancestral state; k>0: fixed to k-1 */
+    fixed = sym_choice("fixed", 0, 3); /* 0: free ancestral state; k>0: fixed to k-1 */
     anc = fixed ? fixed - 1 : 77;
     ret = tsk_tree_map_mutations(&tree, genotypes, NULL, fixed ? TSK_MM_FIXED_ANCESTRAL_STATE : 0, &anc, &ntr, &tr);
     if (nonmissing == 0) {
